@@ -13,6 +13,7 @@
 package main
 
 import (
+	"encoding/json"
 	"fmt"
 	"os"
 	"strings"
@@ -76,7 +77,7 @@ func runCase(r *core.Run, i int) {
 		np = 2 + rnd.Intn(2)
 	}
 	for k := 0; k < np; k++ {
-		procs = append(procs, genProc(rnd, k, procs, feat))
+		procs = append(procs, genProc(rnd, k, procs, feat, k < np-1))
 	}
 	top := procs[len(procs)-1]
 
@@ -97,7 +98,7 @@ func runCase(r *core.Run, i int) {
 	for _, q := range setup {
 		res := s.Exec(q)
 		if res.Panic != nil {
-			r.Violation("create:"+res.Panic.Sig(), map[string]any{"case": i, "stmt": q, "panic": res.Panic.Value})
+			viol(r, "create:"+res.Panic.Sig(), map[string]any{"case": i, "stmt": q, "panic": res.Panic.Value})
 			return
 		}
 		if res.Failed() {
@@ -133,7 +134,9 @@ func runCase(r *core.Run, i int) {
 			default:
 				args[k] = vnull
 				uv := fmt.Sprintf("@u%d", k)
-				pre = append(pre, fmt.Sprintf("SET %s = 77", uv)) // must be overwritten (NULL when never assigned)
+				// known finding out-param-not-reset-to-null (via=domain): the variable handed to an OUT
+				// parameter is NULL beforehand, so that the body sees NULL either way
+				pre = append(pre, fmt.Sprintf("SET %s = NULL", uv))
 				argSQL = append(argSQL, uv)
 				outVars = append(outVars, uv)
 			}
@@ -152,18 +155,18 @@ func runCase(r *core.Run, i int) {
 		// engine
 		res := s.Exec(call)
 		wit := func(what string, extra map[string]any) map[string]any {
-			m := map[string]any{"case": i, "what": what, "setup": setup, "history": history}
+			m := map[string]any{"case": i, "what": what, "setup": setup, "history": history, "size": len(strings.Join(setup, ""))}
 			for k, v := range extra {
 				m[k] = v
 			}
 			return m
 		}
 		if res.TimedOut {
-			r.Violation("call-does-not-return", wit("CALL did not return within the watchdog; the reference interpreter terminates", nil))
+			viol(r, "call-does-not-return", wit("CALL did not return within the watchdog; the reference interpreter terminates", nil))
 			return
 		}
 		if res.Panic != nil {
-			r.Violation(res.Panic.Sig(), wit("panic", map[string]any{"panic": res.Panic.Value, "stack": core.Clip(res.Panic.Stack, 2500)}))
+			viol(r, res.Panic.Sig(), wit("panic", map[string]any{"panic": res.Panic.Value, "stack": core.Clip(res.Panic.Stack, 2500)}))
 			return
 		}
 		r.Eval(1)
@@ -177,7 +180,7 @@ func runCase(r *core.Run, i int) {
 			outcome = "error:" + wantErr
 		}
 		if wantErr != gotErr {
-			r.Violation(fmt.Sprintf("outcome:reference=%s:engine=%s", orOK(wantErr), orOK(gotErr)), wit("CALL outcome differs from the reference interpreter",
+			viol(r, fmt.Sprintf("outcome:reference=%s:engine=%s", orOK(wantErr), orOK(gotErr)), wit("CALL outcome differs from the reference interpreter",
 				map[string]any{"engine_err": fmt.Sprint(res.Err), "reference_err": wantErr, "reference_log": w.plog}))
 			return
 		}
@@ -189,7 +192,7 @@ func runCase(r *core.Run, i int) {
 		}
 		lastID = nl
 		if !core.SameStrings(gotLog, w.plog) {
-			r.Violation(fmt.Sprintf("log-differs:%s", outcome), wit("the log table differs from the reference interpreter's log",
+			viol(r, fmt.Sprintf("log-differs:%s", outcome), wit("the log table differs from the reference interpreter's log",
 				map[string]any{"engine_log": core.ClipStrings(gotLog, 80), "reference_log": core.ClipStrings(w.plog, 80)}))
 			return
 		}
@@ -201,7 +204,7 @@ func runCase(r *core.Run, i int) {
 		sortStrings(wantKt)
 		ktRes := s.Exec("SELECT k FROM kt")
 		if !ktRes.Failed() && !core.SameStrings(core.SortedRows(ktRes.Rows), wantKt) {
-			r.Violation("keyed-table-differs:"+outcome, wit("table kt differs", map[string]any{"engine": core.SortedRows(ktRes.Rows), "reference": wantKt}))
+			viol(r, "keyed-table-differs:"+outcome, wit("table kt differs", map[string]any{"engine": core.SortedRows(ktRes.Rows), "reference": wantKt}))
 			return
 		}
 		if wantErr == "" {
@@ -212,7 +215,7 @@ func runCase(r *core.Run, i int) {
 					got = core.CanonRows(res.Rows)
 				}
 				if len(got) != 1 || got[0] != w.lastSelect.intText() {
-					r.Violation("last-result-set-differs", wit("the last result set of the CALL differs from the last SELECT the reference executed",
+					viol(r, "last-result-set-differs", wit("the last result set of the CALL differs from the last SELECT the reference executed",
 						map[string]any{"engine_rows": core.ClipStrings(got, 10), "reference_value": w.lastSelect.intText()}))
 					return
 				}
@@ -230,7 +233,7 @@ func runCase(r *core.Run, i int) {
 				if !ov.Failed() && len(ov.Rows) == 1 {
 					got := strings.Split(core.CanonRow(ov.Rows[0]), "|")
 					if !core.SameStrings(got, want) {
-						r.Violation("out-params-differ", wit("OUT/INOUT user variables differ after the CALL", map[string]any{"vars": outVars, "engine": got, "reference": want}))
+						viol(r, "out-params-differ", wit("OUT/INOUT user variables differ after the CALL", map[string]any{"vars": outVars, "engine": got, "reference": want}))
 						return
 					}
 					r.Count("out-params-compared", 1)
@@ -253,6 +256,17 @@ func runCase(r *core.Run, i int) {
 	for f := range feat {
 		r.Count("feature."+f, 1)
 	}
+}
+
+// viol reports a violation; with C24_DUMP=<dir> every witness is also written there (triage aid).
+func viol(r *core.Run, sig string, w any) {
+	if d := os.Getenv("C24_DUMP"); d != "" {
+		if m, ok := w.(map[string]any); ok {
+			b, _ := json.MarshalIndent(map[string]any{"signature": sig, "witness": m}, "", " ")
+			os.WriteFile(fmt.Sprintf("%s/%s-%v.json", d, strings.NewReplacer(":", "_", "/", "_", " ", "_").Replace(core.Clip(sig, 60)), m["case"]), b, 0o644)
+		}
+	}
+	r.Violation(sig, w)
 }
 
 func sortStrings(a []string) {
@@ -287,6 +301,8 @@ func featKey(feat map[string]bool) string {
 
 const f31Proc = "CREATE PROCEDURE p5() BEGIN DECLARE CONTINUE HANDLER FOR SQLEXCEPTION INSERT INTO plog (v) VALUES ('handled'); INSERT INTO kt VALUES (1); INSERT INTO kt VALUES (1); INSERT INTO plog (v) VALUES ('after'); END"
 
+const staleProc = "CREATE PROCEDURE h3() BEGIN DECLARE x INT DEFAULT 0; BEGIN DECLARE EXIT HANDLER FOR SQLEXCEPTION SET x = 1; SIGNAL SQLSTATE '45000'; SET x = 2; END; INSERT INTO plog (v) VALUES (x); INSERT INTO kt VALUES (1); INSERT INTO plog (v) VALUES ('after'); END"
+
 // child runs a witness that may never return; the parent kills this process after its limit.
 func child(mode string) {
 	switch mode {
@@ -302,6 +318,19 @@ func child(mode string) {
 		}
 		res := s.Exec("CALL p5()")
 		fmt.Println("returned err=", res.Err)
+	case "stale-handler":
+		core.StmtTimeout = time.Hour
+		e := core.NewEng("d")
+		s := e.NewSess()
+		s.Exec(ddlPlog)
+		s.Exec(ddlKt)
+		s.Exec("INSERT INTO kt VALUES (1)")
+		if r := s.Exec(staleProc); r.Failed() {
+			fmt.Println("create-failed")
+			return
+		}
+		res := s.Exec("CALL h3()")
+		fmt.Println("returned err=", res.Err)
 	}
 }
 
@@ -313,6 +342,10 @@ func pinned(r *core.Run) {
 	if how != "killed" && !strings.Contains(out, "returned") {
 		r.Inconclusive("pinned-f31-child:" + how)
 	}
+
+	how2, out2 := g10lib.ChildHangs("stale-handler", 10*time.Second)
+	r.Pinned("handler-outlives-its-block", "after the EXIT handler of an inner block has run, a later unhandled error outside that block (duplicate key) is dispatched to it again and CALL never returns (child process "+how2+"); expected error 1062",
+		how2 == "killed" || (how2 == "exit:0" && !strings.Contains(out2, "duplicate")), map[string]any{"procedure": staleProc, "child": how2, "output": core.Clip(out2, 200)})
 
 	run := func(stmts ...string) (*core.Eng, *core.Sess) {
 		e := core.NewEng("d")
@@ -341,6 +374,49 @@ func pinned(r *core.Run) {
 		got, _, _ := canonPlog(s, 0)
 		want := []string{"'3'", "'10'", "'20'"}
 		r.Pinned("proc-param-leaks-into-later-name-resolution", fmt.Sprintf("after CALL pa(3) (parameter a), pb's cursor SELECT a FROM src2 fetches %v, expected %v", got, want), !core.SameStrings(got, want), map[string]any{"log": got})
+		e.Close()
+	}
+	// OUT parameters start with the caller's value instead of NULL
+	{
+		e, s := run(ddlPlog, "CREATE PROCEDURE po(OUT o INT) BEGIN INSERT INTO plog (v) VALUES (o); SET o = 1; END", "SET @u = 77", "CALL po(@u)")
+		got, _, _ := canonPlog(s, 0)
+		r.Pinned("out-param-not-reset-to-null", fmt.Sprintf("SET @u = 77; CALL po(@u) with OUT o: the body logs o = %v, expected [NULL]", got), !core.SameStrings(got, []string{"NULL"}), map[string]any{"log": got})
+		e.Close()
+	}
+	// DECLARE without DEFAULT yields 0 instead of NULL (and DEFAULT NULL fails at run time)
+	{
+		e, s := run(ddlPlog, "CREATE PROCEDURE pd() BEGIN DECLARE y INT; INSERT INTO plog (v) VALUES (y); END", "CALL pd()")
+		got, _, _ := canonPlog(s, 0)
+		r.Pinned("declare-without-default-is-zero-not-null", fmt.Sprintf("DECLARE y INT; log y — logged %v, expected [NULL]", got), !core.SameStrings(got, []string{"NULL"}), map[string]any{"log": got})
+		e.Close()
+	}
+	// a handler's statement resolves names in the scope where the condition was raised
+	{
+		e, s := run(ddlPlog, "CREATE PROCEDURE ph(OUT o INT) BEGIN DECLARE EXIT HANDLER FOR SQLEXCEPTION SET o = 46; SET o = 1; BEGIN DECLARE o INT DEFAULT 4; SIGNAL SQLSTATE '45000'; END; END", "SET @u = NULL", "CALL ph(@u)")
+		res := s.Exec("SELECT @u")
+		got := "?"
+		if !res.Failed() && len(res.Rows) == 1 {
+			got = core.Canon(res.Rows[0][0])
+		}
+		r.Pinned("handler-body-resolves-names-in-raising-scope", "outer EXIT HANDLER .. SET o = 46, condition raised in an inner block that shadows o: after CALL ph(@u), @u = "+got+", expected 46", got != "46", map[string]any{"u": got})
+		e.Close()
+	}
+	// the result set of a nested CALL is dropped when the caller goes on with DML
+	{
+		e, s := run(ddlPlog, "CREATE PROCEDURE pi() BEGIN SELECT 4; END", "CREATE PROCEDURE po2() BEGIN CALL pi(); INSERT INTO plog (v) VALUES (1); END")
+		res := s.Exec("CALL po2()")
+		got := []string{}
+		if _, isOK := res.Ok(); !isOK && !res.Failed() {
+			got = core.CanonRows(res.Rows)
+		}
+		r.Pinned("nested-call-result-set-dropped", fmt.Sprintf("CALL po2() where po2 = CALL pi() (SELECT 4); INSERT ..: result rows %v, expected [4]", got), !core.SameStrings(got, []string{"4"}), map[string]any{"rows": got})
+		e.Close()
+	}
+	// assignments to an IN parameter leak back into the caller's variable
+	{
+		e, s := run(ddlPlog, "CREATE PROCEDURE pin(IN a INT) BEGIN SET a = 1; END", "CREATE PROCEDURE pout() BEGIN DECLARE x INT DEFAULT 3; CALL pin(x); INSERT INTO plog (v) VALUES (x); END", "CALL pout()")
+		got, _, _ := canonPlog(s, 0)
+		r.Pinned("in-param-assignment-leaks-to-caller", fmt.Sprintf("pin(IN a) does SET a = 1; caller: x = 3; CALL pin(x); log x — logged %v, expected ['3']", got), !core.SameStrings(got, []string{"'3'"}), map[string]any{"log": got})
 		e.Close()
 	}
 }
